@@ -64,8 +64,9 @@ Inductive event :=
 Inductive cphase :=
 | PFLock                     (* FetchMessage loop head: about to take r.mutex *)
 | PFSelect (v : nat)         (* FetchMessage: in the select, version snapshot v *)
-| PCSelect                   (* CommitMessages: first select (r.commits<- | ctx | stctx) *)
-| PCWait (reply : option bool)  (* CommitMessages (sync): second select (ctx | errch); errch is buffered *)
+| PCCheck                    (* CommitMessages: select { <-r.stctx.Done(): ErrClosedPipe | default } (never blocks) *)
+| PCSelect                   (* CommitMessages: enqueue select (r.commits<- | ctx | stctx) *)
+| PCWait (reply : option bool)  (* CommitMessages (sync): result select (ctx | errch | stctx); errch is buffered *)
 | PTReady | PTAwait          (* Transport: select (p.ready | ctx), then async.await (promise | ctx) *)
 | PDone (r : res).
 Record call := mkCall { k_kind : ckind; k_ctx : bool; k_ph : cphase }.
@@ -205,7 +206,7 @@ Inductive label :=
 (* callers *)
 | LRetCtx (c : nat)            (* the select takes <-ctx.Done(): return ctx.Err() *)
 | LFLock (c : nat) | LFRecv (c : nat) | LFEof (c : nat) | LFRunErr (c : nat)
-| LCEnq (c : nat) | LCClosed (c : nat) | LCReply (c : nat)
+| LCCheck (c : nat) | LCEnq (c : nat) | LCClosed (c : nat) | LCReply (c : nat)
 | LTReady (c : nat) | LTResp (c : nat) (ok : bool)
 (* Reader.Close, one statement per step *)
 | LCloseStep (k : nat)
@@ -351,7 +352,7 @@ Definition step (s : state) (l : label) : option state :=
             then set_lag LagStart (set_once true s2)
             else if c_lag (cfg s) then set_once true s2 else s2
           | KCommit =>
-            if c_group (cfg s) then set_calls (calls s1 ++ [mkCall k false PCSelect]) s1
+            if c_group (cfg s) then set_calls (calls s1 ++ [mkCall k false PCCheck]) s1
             else ev (ERet c ROther) (set_calls (calls s1 ++ [mkCall k false (PDone ROther)]) s1)
           | KTrip => set_calls (calls s1 ++ [mkCall k false PTReady]) s1
           end)
@@ -377,7 +378,9 @@ Definition step (s : state) (l : label) : option state :=
     match nth_error (calls s) c with
     | Some k => match k_ph k with
                 | PFLock =>
-                  let s1 := if negb (closed s) && Nat.eqb (version s) 0 then start 1 s else s in
+                  if closed s then Some (ret c k REOF s)       (* buffered messages are dropped after Close *)
+                  else
+                  let s1 := if Nat.eqb (version s) 0 then start 1 s else s in
                   Some (set_call c k (PFSelect (version s1)) s1)
                 | _ => None end
     | None => None end
@@ -388,7 +391,7 @@ Definition step (s : state) (l : label) : option state :=
       | PFSelect v =>
         let s1 := set_msgs rest s in
         Some (if Nat.leb v iv
-              then (if is_read k && c_group (cfg s) then set_call c k PCSelect s1 else ret c k RMsg s1)
+              then (if is_read k && c_group (cfg s) then set_call c k PCCheck s1 else ret c k RMsg s1)
               else set_call c k PFLock s1)
       | _ => None end
     | _, _ => None end
@@ -406,6 +409,12 @@ Definition step (s : state) (l : label) : option state :=
       | PFSelect _ => Some (set_rph (RIdle 1) (ret c k ROther s))
       | _ => None end
     | _, _ => None end
+  | LCCheck c =>
+    match nth_error (calls s) c with
+    | Some k => match k_ph k with
+                | PCCheck => Some (if stctx s then ret c k RClosedPipe s else set_call c k PCSelect s)
+                | _ => None end
+    | None => None end
   | LCEnq c =>
     match nth_error (calls s) c with
     | Some k => match k_ph k with
@@ -420,7 +429,7 @@ Definition step (s : state) (l : label) : option state :=
   | LCClosed c =>
     match nth_error (calls s) c with
     | Some k => match k_ph k with
-                | PCSelect => if stctx s then Some (ret c k RClosedPipe s) else None
+                | PCSelect | PCWait _ => if stctx s then Some (ret c k RClosedPipe s) else None
                 | _ => None end
     | None => None end
   | LCReply c =>
@@ -552,7 +561,7 @@ Definition step (s : state) (l : label) : option state :=
       Some (match ja with
             | JOk m => set_gph GSync (set_mid (Some m) (ev (EJoined (S m)) s))
             | JOkFail m e => fail_ng e (set_mid (Some m) (ev (EJoined (S m)) s))
-            | JErr e => fail_ng e (set_mid None s)
+            | JErr e => fail_ng e s                             (* joinGroup returns the member id it was given *)
             end)
     | _ => None end
   | LGSync a =>
@@ -733,7 +742,8 @@ Definition fn_gen_done (s : state) (i : nat) : bool :=
    (Go chooses uniformly at random among the ready branches) *)
 Definition is_race (s : state) (l : label) : bool :=
   match l with
-  | LFRecv c | LCReply c | LTReady c | LTResp c _ => call_ctx s c
+  | LFRecv c | LTReady c | LTResp c _ => call_ctx s c
+  | LCReply c => call_ctx s c || stctx s
   | LCEnq c => call_ctx s c || stctx s
   | LFDial i DOk | LFBackoffFire i | LFPushErr i | LFFetch i | LFPush i => f_cancelled s i
   | LRNextGen | LRNextErr => stctx s
@@ -786,45 +796,45 @@ Fixpoint call_info (c : nat) (h : list event) {struct h} : option (ckind * bool 
     if Nat.eqb c c' then Some (k, existsb is_closed_ev t, existsb (is_ctx_ev c) t) else call_info c t
   | _ :: t => call_info c t
   end.
-(* use after close: a call begun after Close returned gets io.EOF (FetchMessage, ReadMessage) /
-   io.ErrClosedPipe (CommitMessages) — or its own context's error if that context has ended
-   (FetchMessage / ReadMessage), had ended before the call began (CommitMessages: a call that first
-   blocks and then returns ctx.Err() was not refused) *)
-Definition chk_after_close (e : event) (h : list event) : bool :=
+(* use after close: a call begun after a Close call returned gets io.EOF (FetchMessage; ReadMessage
+   returns fmt.Errorf("fetching message: %w", io.EOF), class REOF = errors.Is(err, io.EOF)) /
+   io.ErrClosedPipe (CommitMessages of a group Reader; without a group it is errOnlyAvailableWithGroup
+   as always, class ROther).  Nothing else: such a call never delivers a message, never enqueues a
+   commit and never waits (not even for its context).  g = the Reader has a GroupID. *)
+Definition chk_after_close (g : bool) (e : event) (h : list event) : bool :=
   match e with
   | ERet c r =>
     match call_info c h with
-    | Some (k, true, pre) =>
+    | Some (k, true, _) =>
       match k, r with
       | KTrip, _ => true
       | KFetch, REOF | KRead, REOF | KCommit, RClosedPipe => true
-      | KCommit, RCtx => pre                          (* blocking first and then ctx.Err() is not a refusal *)
-      | _, RCtx => existsb (is_ctx_ev c) h            (* a closed Reader's FetchMessage cannot block *)
+      | KCommit, ROther => negb g
       | _, _ => false
       end
     | _ => true
     end
   | _ => true
   end.
-Fixpoint mon_after_close (h : list event) : bool :=
-  match h with [] => true | e :: t => chk_after_close e t && mon_after_close t end.
+Fixpoint mon_after_close (g : bool) (h : list event) {struct h} : bool :=
+  match h with [] => true | e :: t => chk_after_close g e t && mon_after_close g t end.
 (* finer: which clause *)
-Definition chk_late_fetch (e : event) (h : list event) : bool :=
+Definition chk_late_fetch (g : bool) (e : event) (h : list event) : bool :=
   match e with
   | ERet c r => match call_info c h with
-                | Some (KFetch, true, _) | Some (KRead, true, _) => chk_after_close e h
+                | Some (KFetch, true, _) | Some (KRead, true, _) => chk_after_close g e h
                 | _ => true end
   | _ => true end.
-Fixpoint mon_late_fetch (h : list event) : bool :=
-  match h with [] => true | e :: t => chk_late_fetch e t && mon_late_fetch t end.
-Definition chk_late_commit (e : event) (h : list event) : bool :=
+Fixpoint mon_late_fetch (g : bool) (h : list event) {struct h} : bool :=
+  match h with [] => true | e :: t => chk_late_fetch g e t && mon_late_fetch g t end.
+Definition chk_late_commit (g : bool) (e : event) (h : list event) : bool :=
   match e with
   | ERet c r => match call_info c h with
-                | Some (KCommit, true, _) => chk_after_close e h
+                | Some (KCommit, true, _) => chk_after_close g e h
                 | _ => true end
   | _ => true end.
-Fixpoint mon_late_commit (h : list event) : bool :=
-  match h with [] => true | e :: t => chk_late_commit e t && mon_late_commit t end.
+Fixpoint mon_late_commit (g : bool) (h : list event) {struct h} : bool :=
+  match h with [] => true | e :: t => chk_late_commit g e t && mon_late_commit g t end.
 
 (* silence after Close: no heartbeat, commit, fetch, join or sync request once a Close returned *)
 Definition loud (a : api) : bool :=
@@ -836,13 +846,13 @@ Definition chk_silent (e : event) (h : list event) : bool :=
 Fixpoint mon_silent (h : list event) : bool :=
   match h with [] => true | e :: t => chk_silent e t && mon_silent t end.
 
-(* membership as the broker sees it, scanning back: Some m = member m was handed out and has
-   neither been the subject of a LeaveGroup attempt nor been dropped by a later JoinGroup request *)
+(* membership as the broker sees it, scanning back: m > 0 = member id m-1 was handed out and has not
+   been the subject of a LeaveGroup attempt since (a later JoinGroup REQUEST does not release it) *)
 Fixpoint mstat (h : list event) {struct h} : nat :=
   match h with
   | [] => 0
   | EJoined m :: _ => m
-  | EReq ALeave _ :: _ | ELeaveUnreach _ :: _ | EReq AJoin _ :: _ => 0
+  | EReq ALeave _ :: _ | ELeaveUnreach _ :: _ => 0
   | _ :: t => mstat t
   end.
 Definition chk_leave (e : event) (h : list event) : bool :=
@@ -855,41 +865,28 @@ Definition is_msgs_closed (e : event) : bool := match e with EMsgsClosed => true
 Definition msgs_closes (h : list event) : nat := count is_msgs_closed h.
 
 (* what is run on a recorded timeline *)
-Definition C09R_holds (h : list event) : bool := mon_after_close h && mon_silent h && mon_leave h.
+Definition C09R_holds (g : bool) (h : list event) : bool := mon_after_close g h && mon_silent h && mon_leave h.
 
 (* ================= concrete schedules used by Properties/C09.v and the driver ================= *)
-(* partition mode: one batch of n messages lands in the queue, k are fetched, Close, one more fetch *)
 Definition cfg_p (qcap : nat) : config := mkCfg false true false qcap 3.
 Definition cfg_g (sync : bool) (qcap : nat) : config := mkCfg true sync false qcap 3.
 Definition close_all (k : nat) : list label := repeat (LCloseStep k) 6.
+(* regression schedules of the three former defects (fixed in /repo 43be141, 0aeb2fd, da142dd) *)
 Definition wit_fetch_buffered : list label :=
   [LCall KFetch; LFLock 0; LFDial 0 DOk; LFOffsets 0 DOk; LFFetch 0; LFResp 0 (FData 2); LFPush 0; LFPush 0;
    LFRecv 0; LCloseCall; LCloseStep 0; LCloseStep 0; LCloseStep 0; LFSeeCancel 0] ++
-  [LCloseStep 0; LCloseStep 0; LCloseStep 0; LCall KFetch; LFLock 1; LFRecv 1].
-(* group mode, synchronous commits: CommitMessages after Close returned enqueues and waits *)
+  [LCloseStep 0; LCloseStep 0; LCloseStep 0; LCall KFetch; LFLock 1].
+(* group mode: CommitMessages after Close returned *)
 Definition join_ok : list label := [LGCoord GOk; LGJoin (JOk 0); LGSync GOk; LGOfetch GOk].
 Definition wit_commit_enqueued : list label :=
   join_ok ++ [LCloseCall; LCloseStep 0; LCloseStep 0; LCloseStep 0; LCloseStep 0;
    LRNextCall; LRNextCtx; LRCgClose; LGPublishAbort; LGClose; LFnSeeDone 0; LFnHandler 0; LGJoined;
    LGLeaveCoord true; LGLeaveReq; LRCgWait; LRDone; LCloseStep 0; LCloseStep 0;
-   LCall KCommit; LCEnq 0; LCtx 0; LRetCtx 0].
-
-(* the strict reading of "leaves the group it had joined": a later JoinGroup request does not
-   release the obligation to leave with the member id the coordinator handed out *)
-Fixpoint mstat_strict (h : list event) {struct h} : nat :=
-  match h with
-  | [] => 0
-  | EJoined m :: _ => m
-  | EReq ALeave _ :: _ | ELeaveUnreach _ :: _ => 0
-  | _ :: t => mstat_strict t
-  end.
-Definition chk_leave_strict (e : event) (h : list event) : bool :=
-  match e with EClosed _ => Nat.eqb (mstat_strict h) 0 | _ => true end.
-Fixpoint mon_leave_strict (h : list event) : bool :=
-  match h with [] => true | e :: t => chk_leave_strict e t && mon_leave_strict t end.
+   LCall KCommit; LCCheck 0].
 (* member 0 joined, SyncGroup answers RebalanceInProgress (id kept), the re-join fails with another
-   error: joinGroup returns "" and the id is forgotten; Close then leaves nothing *)
+   error: the id is kept by joinGroup, run leaves the group with it and clears it; then Close *)
 Definition wit_no_leave : list label :=
   [LGCoord GOk; LGJoin (JOk 0); LGSync (GFail GRebalance); LRNextCall; LRNextErr; LGCoord GOk; LGJoin (JErr GOther);
+   LGLeaveCoord true; LGLeaveReq;
    LCloseCall; LCloseStep 0; LCloseStep 0; LCloseStep 0; LCloseStep 0;
    LRNextCall; LRNextCtx; LRCgClose; LGOfferAbort; LRCgWait; LRDone; LCloseStep 0; LCloseStep 0].
